@@ -14,12 +14,16 @@ n_ee == <<233>>  n_emo == <<128512>>  n_sq == <<39>>  n_dq == <<34>>  n_abs == <
 n_and == <<97, 110, 100>>  n_sp == <<32>>  n_ab_ == <<97, 32, 98>>  n_tld == <<126>>  n_sl == <<47>>  n_true == <<116, 114, 117, 101>>
 n_t1 == <<126, 49>>  n_at1b == <<97, 126, 49, 98>>  n_t0 == <<126, 48>>  n_big == <<49, 56, 52, 52, 54, 55, 52, 52, 48, 55, 51, 55, 48, 57, 53, 53, 49, 54, 49, 54>>
 n_del == <<97, 127>>  n_aemo == <<97, 128512>>
+n_bsdq == <<97, 92, 34, 98>>      \* a backslash immediately followed by a double quote
+\* names that begin with a word the lexer knows (nil, in, or, and, not, true, None, contains) and go on
+n_nilx == <<110, 105, 108, 120>>  n_inx == <<105, 110, 120>>  n_orx == <<111, 114, 120>>  n_andx == <<97, 110, 100, 120>>  n_notx == <<110, 111, 116, 120>>
+n_truex == <<116, 114, 117, 101, 120>>  n_Nonex == <<78, 111, 110, 101, 120>>  n_containsx == <<99, 111, 110, 116, 97, 105, 110, 115, 120>>
 n_c1 == <<1>>  n_bs == <<92>>  n_x == <<120>>  n_y == <<121>>  n_k == <<107>>
 
 S(str) == Str(str)
 Ints(n) == Arr([i \in 1..n |-> IntV(i - 1)])
 
-SpecialNames == <<n_ee, n_emo, n_sq, n_dq, n_abs, n_anb, n_and, n_sp, n_ab_, n_tld, n_sl, n_true, n_c1, n_bs, n_e, n_1, n_t1, n_at1b, n_t0, n_big, n_del, n_aemo>>
+SpecialNames == <<n_ee, n_emo, n_sq, n_dq, n_abs, n_anb, n_and, n_sp, n_ab_, n_tld, n_sl, n_true, n_c1, n_bs, n_e, n_1, n_t1, n_at1b, n_t0, n_big, n_del, n_aemo, n_bsdq, n_nilx, n_inx, n_orx, n_andx, n_notx, n_truex, n_Nonex, n_containsx>>
 
 DocSeq == <<
   Ints(0), Ints(1), Ints(2), Ints(3), Ints(4), Ints(5), Ints(6),
